@@ -154,8 +154,12 @@ func mergeStates(c *Term, a, b, base *State) *State {
 		}
 	}
 	for k, va := range a.ghost {
-		if _, ok := n.ghost[k]; !ok {
-			if vb, ok2 := b.ghost[k]; ok2 {
+		if _, ok := base.ghost[k]; !ok {
+			vb, ok2 := b.ghost[k]
+			if !ok2 {
+				vb = defaultGhost(b, k)
+			}
+			if vb != nil {
 				n.ghost[k] = mergeValue(c, va, vb)
 			} else {
 				n.ghost[k] = va
@@ -163,7 +167,15 @@ func mergeStates(c *Term, a, b, base *State) *State {
 		}
 	}
 	for k, vb := range b.ghost {
-		if _, ok := n.ghost[k]; !ok {
+		if _, ok := base.ghost[k]; ok {
+			continue
+		}
+		if _, ok := a.ghost[k]; ok {
+			continue
+		}
+		if va := defaultGhost(a, k); va != nil {
+			n.ghost[k] = mergeValue(c, va, vb)
+		} else {
 			n.ghost[k] = vb
 		}
 	}
@@ -243,7 +255,28 @@ func wrapInt(x *Term, ii intInfo) *Term {
 	return Sub(ModE(Add(x, pow2(ii.bits-1)), pow2(ii.bits)), pow2(ii.bits-1))
 }
 
+// typeParamString: a type parameter whose constraint is a single ~string term.
+func typeParamString(t types.Type) bool {
+	tp, ok := t.(*types.TypeParam)
+	if !ok {
+		return false
+	}
+	it, ok := tp.Constraint().Underlying().(*types.Interface)
+	if !ok || it.NumEmbeddeds() != 1 {
+		return false
+	}
+	u, ok := it.EmbeddedType(0).(*types.Union)
+	if !ok || u.Len() != 1 {
+		return false
+	}
+	b, ok := u.Term(0).Type().Underlying().(*types.Basic)
+	return ok && b.Info()&types.IsString != 0
+}
+
 func isStringLike(t types.Type) bool {
+	if typeParamString(t) {
+		return true
+	}
 	switch u := t.Underlying().(type) {
 	case *types.Basic:
 		return u.Info()&types.IsString != 0
@@ -316,11 +349,6 @@ func (e *Engine) freshNamed(st *State, nm string, t types.Type, depth int) Value
 		}
 		return sv
 	case *types.Pointer:
-		if _, isStruct := u.Elem().Underlying().(*types.Struct); !isStruct && !isStringLike(u.Elem()) {
-			if _, isBasic := u.Elem().Underlying().(*types.Basic); !isBasic {
-				return &PtrV{Nil: Var(nm+".isnil", SBool), Obj: e.allocObj(st, Var(nm+".opaque", SInt))}
-			}
-		}
 		id := e.allocObj(st, e.freshNamed(st, nm, u.Elem(), depth+1))
 		return &PtrV{Nil: Var(nm+".isnil", SBool), Obj: id}
 	case *types.Slice:
@@ -372,7 +400,7 @@ func (e *Engine) freshSlice(st *State, nm string, elem types.Type, depth int) *S
 	if st != nil {
 		st.Assume(Le(Int(0), ln))
 	}
-	return &SliceV{Len: ln, Nil: Var(nm+".isnil", SBool), At: func(i *Term) Value {
+	return &SliceV{Len: ln, Nil: Var(nm+".isnil", SBool), Name: nm, At: func(i *Term) Value {
 		return e.elemAt(nm+".at", elem, i, depth+1)
 	}}
 }
@@ -445,6 +473,11 @@ func sortOfType(t types.Type) *Sort {
 func (e *Engine) freshMap(st *State, nm string, m *types.Map) *MapV {
 	ks := sortOfType(m.Key())
 	mv := &MapV{Ref: Var(nm+".ref", SInt), Dom: Var(nm+".dom", SArr(ks, SBool)), Val: map[string]*Term{}, K: ks, Elem: m.Elem()}
+	if st != nil {
+		// a nil map has no keys
+		st.Assume(Implies(Eq(mv.Ref, Int(0)), Eq(mv.Dom, constArray(ks, SBool, False))))
+		st.Assume(Ge(mv.Ref, Int(0)))
+	}
 	for _, leaf := range mapLeaves(m.Elem(), "") {
 		mv.Val[leaf.name] = Var(nm+".val"+leaf.name, SArr(ks, leaf.sort))
 	}
@@ -458,6 +491,9 @@ type leafInfo struct {
 }
 
 func mapLeaves(t types.Type, prefix string) []leafInfo {
+	if _, ok := t.Underlying().(*types.Interface); ok && !isErrorType(t) {
+		return []leafInfo{{prefix + "#tag", SInt, t}, {prefix + "#id", SInt, t}}
+	}
 	if st, ok := t.Underlying().(*types.Struct); ok && !isStringLike(t) {
 		var out []leafInfo
 		for i := 0; i < st.NumFields(); i++ {
